@@ -34,6 +34,7 @@ PROPS["C16"] = {
     "harnesses": [
         {"pkg": ".", "dir": "s3db", "entry": "VerifH_C16_codec",
          "quick": {"workers": 8, "timeout": 600}},
+        {"pkg": "kv", "dir": "kv", "entry": "VerifH_C16_shared_cache", "quick": {"workers": 2, "timeout": 600}},
         {"pkg": ".", "dir": "s3db", "entry": "VerifH_C16_fresh",
          "quick": {"params": "keys=3,commits=2,maxlayer=2", "workers": 16, "timeout": 900, "samples": 3, "validate": 4},
          "thorough": {"params": "keys=4,commits=2,maxlayer=2", "workers": 16, "timeout": 3000}},
@@ -145,6 +146,8 @@ PROPS["C06"] = {
 
 PROPS["C11"] = {
     "harnesses": [
+        {"pkg": ".", "dir": "s3db", "entry": "VerifH_C04_commit",
+         "quick": {"params": "maxstmts=1", "workers": 16, "timeout": 900}},
         {"pkg": ".", "dir": "s3db", "entry": "VerifH_C11_versions",
          "quick": {"params": "steps=3", "workers": 16, "timeout": 1200},
          "thorough": {"params": "steps=4", "workers": 16, "timeout": 6000}},
@@ -288,7 +291,7 @@ PROPS["C18"] = {
         {"pkg": "kv", "dir": "kv", "entry": "VerifH_C18_legacy", "reach": ["end", "legacy-readable"],
          "quick": {"params": "alllengths=0", "workers": 14, "timeout": 1200},
          "thorough": {"params": "alllengths=1", "workers": 16, "timeout": 3600}},
-        {"pkg": "kv", "dir": "kv", "entry": "VerifH_C18_arbitrary", "reach": ["end", "accepted"],
+        {"pkg": "kv", "dir": "kv", "entry": "VerifH_C18_arbitrary", "no_native": True, "reach": ["end", "accepted"],
          "quick": {"params": "maxbuf=72", "workers": 16, "timeout": 1200}},
         {"pkg": "kv", "dir": "kv", "entry": "VerifH_C18_wrapping",
          "quick": {"workers": 1, "timeout": 600}},
